@@ -102,7 +102,7 @@ func propC19(c *Ctx) {
 	// admission does not apply (two scenarios: not loopback / loopback
 	// authentication enabled); cut the edges that contradict the assumption;
 	// the protected handler must then be unreachable.
-	fieldCondEdges := func(fn *ssa.Function, f *types.Var) (tru, fls []Edge) {
+	fieldCondEdges := func(fn *ssa.Function, f *types.Var, stack []*ssa.Call) (tru, fls []Edge) {
 		allInstrs(fn, func(in ssa.Instruction) {
 			var lf *types.Var
 			switch x := in.(type) {
@@ -115,6 +115,15 @@ func propC19(c *Ctx) {
 				lf, _ = fieldOf(x)
 			default:
 				return
+			}
+			if lf != f && lf != nil && isBoolType(in.(ssa.Value).Type()) {
+				// a copy of the flag kept in a small value of its own (authnPolicy{disabled: conf.Dashboard.DisableAuthn}):
+				// the member is read through the value's construction (unfold.go)
+				if u := deepUnfold(cval{v: in.(ssa.Value), stack: stack}); u.v != in.(ssa.Value) {
+					if lf2, _ := loadedField(stripConv(u.v)); lf2 == f {
+						lf = f
+					}
+				}
 			}
 			if lf != f {
 				return
@@ -152,11 +161,35 @@ func propC19(c *Ctx) {
 		notLoopback scen = iota
 		loopbackAuthnOn
 	)
-	var helperOK func(h *ssa.Function, d int) bool
-	admitCuts := func(fn *ssa.Function, sc scen, d int) *Cuts {
+	var helperOK func(h *ssa.Function, d int, site *ssa.Call) bool
+	isLoopbackOfRequest := func(v ssa.Value) bool {
+		call, ok := stripConv(v).(*ssa.Call)
+		if !ok || staticCallee(call) != isLoopback {
+			return false
+		}
+		_, isP := call.Call.Args[0].(*ssa.Parameter)
+		if lf, base := loadedField(stripConv(call.Call.Args[0])); lf != nil && lf.Name() == "RemoteAddr" {
+			_, isP = base.(*ssa.Parameter)
+		}
+		return isP
+	}
+	admitCuts := func(fn *ssa.Function, sc scen, d int, stack []*ssa.Call) *Cuts {
 		cuts := newCuts()
-		disT, _ := fieldCondEdges(fn, fDisable)
+		disT, _ := fieldCondEdges(fn, fDisable, stack)
 		cuts.addEdges(disT)
+		// a boolean parameter that is handed isLoopback(request) at the call site (exempt(local bool))
+		if len(stack) > 0 && sc == notLoopback {
+			site := stack[len(stack)-1]
+			for i, p := range fn.Params {
+				if !isBoolType(p.Type()) || i >= len(site.Call.Args) {
+					continue
+				}
+				if isLoopbackOfRequest(site.Call.Args[i]) {
+					t, _ := boolEdges(p)
+					cuts.addEdges(t)
+				}
+			}
+		}
 		for _, ci := range callsIn(fn) {
 			call, ok := ci.(*ssa.Call)
 			if !ok {
@@ -178,7 +211,7 @@ func propC19(c *Ctx) {
 				}
 			default:
 				if h := regionCallee(call); h != nil && d < 2 && isRepoFunc(h) && h != isLoopback {
-					if b, isB := call.Type().Underlying().(*types.Basic); isB && b.Kind() == types.Bool && helperOK(h, d+1) {
+					if b, isB := call.Type().Underlying().(*types.Basic); isB && b.Kind() == types.Bool && helperOK(h, d+1, call) {
 						t, _ := boolEdges(call)
 						cuts.addEdges(t)
 					}
@@ -186,7 +219,7 @@ func propC19(c *Ctx) {
 			}
 		}
 		if sc == loopbackAuthnOn {
-			lt, loopF := fieldCondEdges(fn, fLoop)
+			lt, loopF := fieldCondEdges(fn, fLoop, stack)
 			cuts.addEdges(loopF)
 			if os.Getenv("SHOVELCHECK_DEBUG") != "" {
 				fmt.Println("  debug", fnName(fn), "E true edges", len(lt), "false edges", len(loopF), "A-true", len(disT))
@@ -203,14 +236,16 @@ func propC19(c *Ctx) {
 	}
 	// a boolean helper admits only under the same three conditions
 	helperMemo := map[*ssa.Function]bool{}
-	helperOK = func(h *ssa.Function, d int) bool {
-		if v, ok := helperMemo[h]; ok {
+	helperSite := map[*ssa.Function]*ssa.Call{}
+	helperOK = func(h *ssa.Function, d int, site *ssa.Call) bool {
+		if v, ok := helperMemo[h]; ok && helperSite[h] == site {
 			return v
 		}
 		helperMemo[h] = false
+		helperSite[h] = site
 		good := true
 		for _, sc := range []scen{notLoopback, loopbackAuthnOn} {
-			cuts := admitCuts(h, sc, d)
+			cuts := admitCuts(h, sc, d, []*ssa.Call{site})
 			hit, _ := reach(entrySite(h), func(in ssa.Instruction) bool {
 				r, isR := in.(*ssa.Return)
 				if !isR {
@@ -233,9 +268,48 @@ func propC19(c *Ctx) {
 							continue
 						}
 						return true
+					case *ssa.UnOp:
+						// !enable_loopback_authn is false when loopback authentication is on
+						if v.Op == token.NOT && sc == loopbackAuthnOn {
+							isLoopFlag := false
+							if lf2, _ := loadedField(v.X); lf2 == fLoop {
+								isLoopFlag = true
+							} else if lf2, _ := fieldOf(v.X); lf2 == fLoop {
+								isLoopFlag = true
+							} else if u := deepUnfold(cval{v: v.X, stack: []*ssa.Call{site}}); u.v != v.X {
+								if lf3, _ := loadedField(stripConv(u.v)); lf3 == fLoop {
+									isLoopFlag = true
+								}
+							}
+							if isLoopFlag {
+								continue
+							}
+						}
+						if lf2, _ := loadedField(lv); lf2 == fDisable {
+							continue
+						}
+						if u := deepUnfold(cval{v: lv, stack: []*ssa.Call{site}}); u.v != lv {
+							if lf3, _ := loadedField(stripConv(u.v)); lf3 == fDisable {
+								continue
+							}
+						}
+						return true
+					case *ssa.Parameter:
+						// the loopback verdict handed in by the caller: false in this scenario
+						if sc == notLoopback && isBoolType(v.Type()) {
+							if i := paramIndexOf(v); i >= 0 && i < len(site.Call.Args) && isLoopbackOfRequest(site.Call.Args[i]) {
+								continue
+							}
+						}
+						return true
 					default:
 						if lf2, _ := loadedField(lv); lf2 == fDisable {
 							continue
+						}
+						if u := deepUnfold(cval{v: lv, stack: []*ssa.Call{site}}); u.v != lv {
+							if lf3, _ := loadedField(stripConv(u.v)); lf3 == fDisable {
+								continue
+							}
 						}
 						return true
 					}
@@ -283,8 +357,8 @@ func propC19(c *Ctx) {
 		nextCalls = append(nextCalls, ci)
 	}
 	for i, ci := range nextCalls {
-		r1, _ := reach(entrySite(cl), isInstr(ci), admitCuts(cl, notLoopback, 0))
-		r2, _ := reach(entrySite(cl), isInstr(ci), admitCuts(cl, loopbackAuthnOn, 0))
+		r1, _ := reach(entrySite(cl), isInstr(ci), admitCuts(cl, notLoopback, 0, nil))
+		r2, _ := reach(entrySite(cl), isInstr(ci), admitCuts(cl, loopbackAuthnOn, 0, nil))
 		why := ""
 		if r1 || r2 {
 			why = "reachable without any of the three admissions"
@@ -295,9 +369,9 @@ func propC19(c *Ctx) {
 	if nNext == 0 {
 		c.Violation("R19.1", "Authn/next", cl.Pos(), "the wrapper never calls the protected handler")
 	}
-	admitCuts(cl, notLoopback, 0)
+	admitCuts(cl, notLoopback, 0, nil)
 	for h := range helperMemo {
-		admitCuts(h, notLoopback, 1)
+		admitCuts(h, notLoopback, 1, []*ssa.Call{helperSite[h]})
 	}
 	c.Check("R19.1", "Authn/session.Get(r,_,&h.sess)", cl.Pos(), sessGet != nil, "the session is read from the incoming request with this handler's own session config and its error is tested")
 	// whoever is not let through is redirected to /login: no exit without the
@@ -559,6 +633,29 @@ func propC19(c *Ctx) {
 				h := call.Parent()
 				cs, _ := lreg.site[h].(*ssa.Call)
 				if cs == nil || cs.Parent() != login {
+					continue
+				}
+				// in a helper that answers with an error (checkPassword(r) error): nil only when the comparison said 1
+				if isErrorType(h.Signature.Results().At(0).Type()) {
+					nilOnlyOnMatch := true
+					pf := newPathFacts(h)
+					for _, r := range returnsOf(h) {
+						for _, lf := range phiLeaves(returnValues(r)[0]) {
+							if definitelyNonNilError(lf.Val, nil) {
+								continue
+							}
+							if at := pf.At(r); at != nil && at.knownNonNil(lf.Val) {
+								continue
+							}
+							if !guardedByEdges(h, r, t) {
+								nilOnlyOnMatch = false
+							}
+						}
+					}
+					if nilOnlyOnMatch {
+						isNil, _ := nilTestEdges(cs)
+						cmpOK = append(cmpOK, isNil...)
+					}
 					continue
 				}
 				implies := true
